@@ -860,7 +860,7 @@ def _expand(a, *shape):
 
 @reg("expand_as")
 def _expand_as(a, b):
-    return mk(np.broadcast_to(a._e, tuple(b.shape)).copy(), a.dtype)
+    return mk(np.broadcast_to(_full(E(a)), tuple(b.shape)).copy(), a.dtype)
 
 
 @reg("broadcast_to")
